@@ -202,16 +202,14 @@ def run_grouped(E, case, prop):
                                               "kind": "raises", "inputs": jsonable(inp.eval(m_)) if m_ is not None else {},
                                               "labels": [f"{type(e).__name__}: {str(e)[:150]}"]})
                 continue
-            if len(paths) != 1:
+            if len(paths) > 8:
                 raise Unsupported(f"ema_grouped forked into {len(paths)} paths on valid arguments")
-            pc, out, rt = paths[0]
-            if pc:
-                inp.pre.extend(pc)
         else:
             rt = fresh_runtime()
             rt.div_obligation = True
             out = em["_ema_grouped"](A(list(codes), "int64").tag("input:group_key"), _varr(xs, dt).tag("input:values"), SF(False, alpha), G,
                                      A(sel, "bool").tag("input:mask") if masked else None)
+            paths = [([], out, rt)]
         beta = SF(False, 1 - alpha)
 
         def beta_pow(j, i, codes=codes, beta=beta):
@@ -220,12 +218,16 @@ def run_grouped(E, case, prop):
             for _ in range(e):
                 w = w * beta
             return w
-        bl = ema_spec_bads(codes, xs, sel, out.cells, beta_pow, valid_fn(xs, sel, dt), "ema_grouped")
-        if case.get("null_rows_constant"):
-            for i in range(N):
-                if codes[i] < 0:
-                    bl.append((f"ema_grouped.nullrow[{i}]", b_not(_isnan(out.cells[i]))))
-        _decide_into(res, inp, bl, rt, case, prop, {"codes": list(codes)}, sig=f"ema_grouped{'(public)' if case.get('public') else ''}:{dt.kind}:mask={masked}")
+        pre0 = list(inp.pre)
+        for pc, out, rt in paths:          # every path of the entry point (a dispatch on a symbolic argument forks) is decided under its own condition
+            inp.pre[:] = pre0 + list(pc)
+            bl = ema_spec_bads(codes, xs, sel, out.cells, beta_pow, valid_fn(xs, sel, dt), "ema_grouped")
+            if case.get("null_rows_constant"):
+                for i in range(N):
+                    if codes[i] < 0:
+                        bl.append((f"ema_grouped.nullrow[{i}]", b_not(_isnan(out.cells[i]))))
+            _decide_into(res, inp, bl, rt, case, prop, {"codes": list(codes)}, sig=f"ema_grouped{'(public)' if case.get('public') else ''}:{dt.kind}:mask={masked}")
+        inp.pre[:] = pre0
     res["symex_s"] = time.time() - t0 - res["solver_s"]
     return _finish(res, E)
 
@@ -315,19 +317,22 @@ def run_ungrouped(E, case, prop):
             res["candidates"].append({"signature": f"{prop}:raises:{type(e).__name__}:ema(public):{dt.kind}", "case": dict(case), "kind": "raises",
                                       "inputs": jsonable(inp.eval(m_)) if m_ is not None else {}, "labels": [f"{type(e).__name__}: {str(e)[:150]}"]})
             return _finish(res, E)
-        if len(paths) != 1:
+        if len(paths) > 8:
             raise Unsupported(f"ema forked into {len(paths)} paths on valid arguments")
-        pc, ou, rt2 = paths[0]
-        inp.pre.extend(pc)
-        rt.obligations.extend(rt2.obligations)
     else:
-        ou = em["_ema_adjusted"](_varr(xs, dt).tag("input:values"), SF(False, alpha))
-    bl = []
-    seen_valid = False
-    for i in range(N):
-        seen_valid = b_or(seen_valid, b_not(_isnan(xs[i])) if dt.kind == "f" else True)
-        bl.append((f"single-group grouped == ungrouped[{i}]", b_and(seen_valid, b_not(same(_sf(og.cells[i]), _sf(ou.cells[i]))))))
-    _decide_into(res, inp, bl, rt, case, prop, {}, sig=f"ema_single_group_vs_ungrouped:{dt.kind}")
+        paths = [([], em["_ema_adjusted"](_varr(xs, dt).tag("input:values"), SF(False, alpha)), None)]
+    pre0 = list(inp.pre)
+    ob0 = list(rt.obligations)
+    for pc, ou, rt2 in paths:
+        inp.pre[:] = pre0 + list(pc)
+        rt.obligations[:] = ob0 + (list(rt2.obligations) if rt2 is not None else [])
+        bl = []
+        seen_valid = False
+        for i in range(N):
+            seen_valid = b_or(seen_valid, b_not(_isnan(xs[i])) if dt.kind == "f" else True)
+            bl.append((f"single-group grouped == ungrouped[{i}]", b_and(seen_valid, b_not(same(_sf(og.cells[i]), _sf(ou.cells[i]))))))
+        _decide_into(res, inp, bl, rt, case, prop, {}, sig=f"ema_single_group_vs_ungrouped:{dt.kind}")
+    inp.pre[:] = pre0
     res["symex_s"] = time.time() - t0 - res["solver_s"]
     return _finish(res, E)
 
